@@ -50,6 +50,9 @@ ODD_PAGE = ("# odd whitespace\n\n"
             "o P2 todo whose continuation holds only indentation\n  \n  * after the gap\n"
             "- double  space inside and a tab-free tail\n"
             "x done with bullets \n  * one \n  * two\n")
+# every priority with every kind that keeps it in the text form
+PRIO_PAGE = "# priorities\n\n" + "".join("%s P%d todo of kind %s with priority %d\n" % (k, n, {"o": "open", "<": "blocked", ">": "parent"}[k], n)
+                                          for k in "o<>" for n in range(10)) + "\n"
 KIND_WHERES = {"(o | x | - | ~ | < | >)": None, "o": "o", "-": "-", "(o | x)": "ox", "(- | ~ | <)": "-~<"}
 ORDERS = ["", " O none", " O alpha", " O create", " O modify alpha", " O type priority", " O priority"]
 
@@ -63,7 +66,7 @@ def real_pipeline(rng, oc):
     from harness.implrun import write_tree, read_tree
     today = dt.date(*TODAY)
     with Z.tmpdir("c12_") as d:
-        files = {"odd.zo": ODD_PAGE,
+        files = {"odd.zo": ODD_PAGE, "prio.zo": PRIO_PAGE,
                  "gen.zo": pagegen.render(pagegen.gen_page(rng, max_sections=2)),
                  "sub/more.zo": pagegen.render(pagegen.gen_page(rng, max_sections=1))}
         write_tree(d, files)
@@ -71,8 +74,9 @@ def real_pipeline(rng, oc):
             try:
                 Z.db_create(d)
             except Exception as e:  # noqa: BLE001
-                oc.count("c_create_exception_" + type(e).__name__)
-                return True
+                oc.spec_fail.append(({"files": files}, "db create raised %s: %s" % (type(e).__name__, str(e)[:200]),
+                                     "db create succeeds on well-formed pages", None))
+                return False
             orig = {}
             for rel, text in read_tree(d).items():
                 if rel.endswith(".zo") and not rel.startswith(".zorg"):
